@@ -2,6 +2,7 @@ use crate::Args;
 use crate::report::Report;
 
 pub mod c02;
+pub mod c02t;
 pub mod c03;
 pub mod c04;
 pub mod c05;
@@ -22,23 +23,25 @@ pub mod c19_backoff;
 pub mod c19b;
 pub mod c20;
 
-/// `check` hands a replay file to EVERY part of a property. The two psim parts of C08 answer only for their own cases (the
-/// other one reports nothing instead of "case not in this tier's case list").
-fn c08_replay_of_other_part(args: &Args) -> bool {
+/// `check` hands a replay file to EVERY part of a property. The two psim parts of C08 (and of C02) answer only for their
+/// own cases (the other one reports nothing instead of "case not in this tier's case list").
+fn replay_of_other_part(args: &Args) -> bool {
     let case = args.replay_json().and_then(|j| j.get("case").and_then(|c| c.as_str().map(str::to_string)));
-    case.is_some_and(|c| c.starts_with(c08t::LABEL_PREFIX) != (args.id == "C08T"))
+    case.is_some_and(|c| c.starts_with(c08t::LABEL_PREFIX) != args.id.ends_with('T'))
 }
 
 pub fn dispatch(args: &Args) -> Report {
     match args.id.as_str() {
+        "C02" | "C02T" if replay_of_other_part(args) => Report::new("C02", &args.tier, "psim", "model_checking"),
         "C02" => c02::run(args),
+        "C02T" => c02t::run(args),
         "C03" => c03::run(args),
         "C04" => c04::run(args),
         "C05" => c05::run(args),
         "C06" => c06::run(args),
         "C03R" | "C10R" | "C15R" => c06::run_reuse(args),
         "C07" => c07::run(args),
-        "C08" | "C08T" if c08_replay_of_other_part(args) => Report::new("C08", &args.tier, "psim", "fault_enumeration"),
+        "C08" | "C08T" if replay_of_other_part(args) => Report::new("C08", &args.tier, "psim", "fault_enumeration"),
         "C08" => c08::run(args),
         "C08T" => c08t::run(args),
         "C09" => c09::run(args),
